@@ -41,6 +41,9 @@ Further ingredients
     `yield from <itself>(child)`) produces, in `for entry in walk():`, the values `entry.path` (a path of its own, guarded by each
     yield's guard) and `entry.flag` (atom REC.flag, fixed per yield to the truth of the yielded expression); the same holds inside a
     helper whose parameter receives such a record at every call site;
+    a field that is None for one kind of entry (`entry.source_file is None`) is the atom REC.<f>.isnone, a tag field compared with a
+    literal (`entry.kind is Kind.DIRECTORY`, `== "dir"`) the atom REC.<f>==<literal>, both fixed per yield; `for path, flag in walk()`
+    unpacks NamedTuple records in field order; a value assigned on several branches that meet again is derived from all assignments;
   * `x is None` / `x is not None` where x is the result of a repo helper that returns None on some paths: "not None" is the
     disjunction of the path conditions of the helper's other `return <value>` statements (conjoined with an atom of its own unless
     the value plainly is an object: constructor call, literal, `f.read()`, str(...), ...);
@@ -296,7 +299,7 @@ class Facts:
                 self.bind.setdefault(name, []).append(("val", n))
         # alias classes (union-find over names)
         self._up: dict[str, str] = {}
-        for v, bs in self.bind.items():
+        for v, bs in list(self.bind.items()):
             if v in self.params or len(bs) != 1 or bs[0][0] != "val":
                 continue
             a = self.alias_name(bs[0][1])
@@ -474,6 +477,14 @@ class Facts:
                     got = self.trace(v, seen | {n})
                     if got:
                         return got
+                if v is None and not any(rcs.join_parts(self.scan, self.g, b[1]) is not None or (isinstance(b[1], ast.Call) and ((isinstance(b[1].func, ast.Attribute) and b[1].func.attr in POPPERS | {"get"}) or (isinstance(b[1].func, ast.Name) and b[1].func.id == "next"))) for b in bs):
+                    # assigned on several branches that meet again (`if d: name = f(p) else: name = g(p).name`): derived from
+                    # whatever any of the assignments is derived from
+                    got = set()
+                    for b in bs:
+                        got |= self.trace(b[1], seen | {n})
+                    if got:
+                        return got
             if n in self.params or len(bs) != 1:
                 return {n} if (n in self.params or bs) else set()
             b = bs[0]
@@ -577,6 +588,7 @@ class Scan:
         self.used_records: dict[str, object] = {}
         self.prefix_bugs: list[str] = []
         self.walk_notes: list[str] = []
+        self.rec_cmp: dict[str, set[str]] = {}  # tag fields of walker records and the literals they are compared with
 
     def facts(self, g: FuncInfo) -> Facts:
         if g.fq not in self._facts:
@@ -714,7 +726,7 @@ class Scan:
             return self.F(g, e.value, R, env, depth)
         if isinstance(e, ast.Attribute) and env and norm(e) in env:
             return env[norm(e)]
-        if isinstance(e, ast.Attribute) and isinstance(e.value, ast.Name) and R and any(n.startswith(e.value.id + ".") for n in R) and fx.record_field(e) is not None and fx.record_field(e) not in R:
+        if isinstance(e, ast.Attribute) and isinstance(e.value, ast.Name) and R and any(n.startswith(e.value.id + ".") for n in R) and fx.record_field(e) is not None:
             return atom(f"REC.{e.attr}")  # another field of the record whose path is tracked: fixed by each yield (see totals)
         if isinstance(e, ast.Name):
             if e.id in env:
@@ -730,6 +742,10 @@ class Scan:
         if isinstance(e, ast.Compare) and len(e.ops) == 1:
             left, op, right = e.left, e.ops[0], e.comparators[0]
             if isinstance(op, (ast.Is, ast.IsNot)) and isinstance(right, ast.Constant) and right.value is None:
+                rf = self._tracked_record_field(g, left, R)
+                if rf is not None:
+                    a = atom(f"REC.{rf}.isnone")  # fixed by each yield: a field that is None for one kind of entry
+                    return a if isinstance(op, ast.Is) else f_not(a)
                 t = self.F(g, left, R, env, depth)  # object-or-None values: `x is not None` is the truthiness of x
                 if self._object_or_none(g, left):
                     return t if isinstance(op, ast.IsNot) else f_not(t)
@@ -747,6 +763,19 @@ class Scan:
                     if isinstance(b, ast.Constant) and isinstance(b.value, bool):
                         t = self.F(g, a, R, env, depth)
                         return t if (isinstance(op, ast.Eq)) == b.value else f_not(t)
+                    # `entry.kind == "dir"` / `entry.kind is Kind.DIRECTORY`: a tag field of the tracked record compared with a literal
+                    rf = self._tracked_record_field(g, a, R)
+                    if rf is not None and _literal_text(b) is not None:
+                        self.rec_cmp.setdefault(rf, set()).add(_literal_text(b))
+                        at = atom(f"REC.{rf}=={_literal_text(b)}")
+                        return at if isinstance(op, ast.Eq) else f_not(at)
+            if isinstance(op, (ast.Is, ast.IsNot)):
+                for a, b in ((left, right), (right, left)):
+                    rf = self._tracked_record_field(g, a, R)
+                    if rf is not None and isinstance(b, ast.Attribute) and _literal_text(b) is not None:
+                        self.rec_cmp.setdefault(rf, set()).add(_literal_text(b))
+                        at = atom(f"REC.{rf}=={_literal_text(b)}")
+                        return at if isinstance(op, ast.Is) else f_not(at)
             return self.opaque(g, e, False)
         if isinstance(e, (ast.Call, ast.BinOp)):
             t = self.anc(g, e, R)
@@ -799,6 +828,41 @@ class Scan:
                     return TRUE
             return self.opaque(g, e)
         return self.opaque(g, e)
+
+    def _tracked_record_field(self, g: FuncInfo, e: ast.expr, R: frozenset | None, depth: int = 0) -> str | None:
+        """Field name if `e` is `<record>.<field>` (or a local holding it) of the record whose path is tracked."""
+        fx = self.facts(g)
+        if isinstance(e, ast.NamedExpr):
+            return self._tracked_record_field(g, e.value, R, depth + 1)
+        if isinstance(e, ast.Name) and depth < 4 and e.id not in fx.params:
+            bs = fx.bind.get(e.id, [])
+            if len(bs) == 1 and bs[0][0] == "val":
+                return self._tracked_record_field(g, bs[0][1], R, depth + 1)
+            return None
+        if isinstance(e, ast.Attribute) and isinstance(e.value, ast.Name) and R and any(n.startswith(e.value.id + ".") for n in R) and fx.record_field(e) is not None:
+            return e.attr
+        return None
+
+    def _plain_path(self, w: FuncInfo, e: ast.expr, depth: int = 0) -> bool:
+        """Is the value plainly a path / string object made from a path (never None, always truthy)?"""
+        fw = self.facts(w)
+        if isinstance(e, ast.Name) and depth < 4 and e.id not in fw.params:
+            bs = fw.bind.get(e.id, [])
+            if len(bs) == 1 and (bs[0][0] == "for" or (bs[0][0] == "val" and isinstance(bs[0][1], ast.Call) and isinstance(bs[0][1].func, ast.Attribute) and bs[0][1].func.attr in POPPERS)):
+                # an element of the work list / of a directory listing: a path when the generator asks it path questions
+                return any(isinstance(n, ast.Attribute) and isinstance(n.value, ast.Name) and n.value.id == e.id and n.attr in ("is_dir", "is_file", "iterdir", "resolve", "suffix", "name") for n in own_nodes(w.node))
+            return len(bs) == 1 and bs[0][0] == "val" and self._plain_path(w, bs[0][1], depth + 1)
+        if rcs.join_parts(self, w, e) is not None:
+            return True
+        if isinstance(e, ast.Call):
+            f = e.func
+            if isinstance(f, ast.Attribute) and f.attr in ALIAS_METHODS | {"with_suffix", "with_name", "relative_to"} and fw.trace(f.value):
+                return True
+            if isinstance(f, ast.Name) and f.id in ALIAS_FUNCS - {"str"} and e.args:
+                return True
+            if lib_name(self.repo, w, e) in ALIAS_LIBS:
+                return True
+        return False
 
     def _suffix_of(self, g: FuncInfo, e: ast.expr, R: frozenset | None) -> bool:
         """`<alias>.suffix` or `os.path.splitext(<alias>)[1]` (also through a single-assignment local)."""
@@ -1129,10 +1193,31 @@ class Scan:
                     env_y = dict(env or {})
                     fixed = []
                     for f2, ye in fields.items():
-                        if f2 != fld:
+                        a2, n2 = atom(f"REC.{f2}"), atom(f"REC.{f2}.isnone")
+                        if isinstance(ye, ast.Constant):
+                            fixed.append(n2 if ye.value is None else f_not(n2))
+                            fixed.append(a2 if ye.value else f_not(a2))
+                            for lit in sorted(self.rec_cmp.get(f2, ())):
+                                if lit.startswith("const:"):
+                                    c2 = atom(f"REC.{f2}=={lit}")
+                                    fixed.append(c2 if lit == _literal_text(ye) else f_not(c2))
+                            continue
+                        if _literal_text(ye) is not None:
+                            # a tag (`Kind.DIRECTORY`): equal to the literals it is compared with iff they are the same member
+                            for lit in sorted(self.rec_cmp.get(f2, ())):
+                                c2 = atom(f"REC.{f2}=={lit}")
+                                if lit == _literal_text(ye):
+                                    fixed.append(c2)
+                                elif lit.rsplit(".", 1)[0] == _literal_text(ye).rsplit(".", 1)[0]:
+                                    fixed.append(f_not(c2))
+                            continue
+                        plain = self._plain_path(w, ye)
+                        if plain or (isinstance(ye, ast.Call) and self.T.ctor_class(w, ye) is not None) or isinstance(ye, (ast.Compare, ast.JoinedStr, ast.List, ast.Tuple, ast.Dict, ast.Set)) or (isinstance(ye, ast.UnaryOp) and isinstance(ye.op, ast.Not)):
+                            fixed.append(f_not(n2))
+                        if plain:
+                            fixed.append(a2)
+                        elif f2 != fld:
                             val = self.F(w, ye, Rw, {})
-                            env_y[f"{var}.{f2}"] = val
-                            a2 = atom(f"REC.{f2}")
                             fixed.append(f_or([f_and([a2, val]), f_and([f_not(a2), f_not(val)])]))
                     loc_y = self.guard(g, node, R, env_y)
                     for t in self.totals(w, y, Rw, depth + 1):
@@ -1147,6 +1232,12 @@ class Scan:
                 v = y.value
                 elts = list(v.elts) if isinstance(v, ast.Tuple) else [v]
                 telts = list(target.elts) if isinstance(target, (ast.Tuple, ast.List)) else [target]
+                if isinstance(v, ast.Call) and len(telts) > 1:
+                    # `for path, is_directory in walk()` where the walker yields NamedTuple records: unpacked in field order
+                    rf = self.record_fields(w, v)
+                    ci = self.T.ctor_class(w, v) if rf is not None else None
+                    if ci is not None and any(b.rsplit(".", 1)[-1] == "NamedTuple" for b in ci.bases):
+                        elts = list(rf.values())
                 if v is None or len(elts) != len(telts):
                     outs.append(local)
                     continue
@@ -1466,6 +1557,15 @@ class Scan:
 
 _CANON = [EXCL, PY, ISDIR, ISFILE, ANC, RECL]
 from core.cfg import MUTATORS as _MUTATORS  # noqa: E402
+
+
+def _literal_text(e: ast.expr) -> str | None:
+    """Canonical text of a literal tag: a str / int constant, or a dotted member access such as `Kind.DIRECTORY` (enum member)."""
+    if isinstance(e, ast.Constant) and isinstance(e.value, (str, int)) and not isinstance(e.value, bool):
+        return f"const:{e.value!r}"
+    if isinstance(e, ast.Attribute) and isinstance(e.value, (ast.Name, ast.Attribute)) and e.attr.isupper():
+        return norm(e)
+    return None
 
 
 def _names(e: ast.AST) -> set[str]:
